@@ -10,7 +10,8 @@ import (
 
 func c05Maps(maxEntries int) []map[string]string {
 	keys := []string{"a", "b", ""}
-	vals := []string{"1", "2", "", "1,b=2", "1+"}
+	// (the last two differ only in a byte that is not valid UTF-8, next to a separator byte: identities are byte strings)
+	vals := []string{"1", "2", "", "1,b=2", "1+", "1=\xff", "1=\xfe"}
 	out := []map[string]string{{}}
 	for _, k := range keys {
 		for _, v := range vals {
